@@ -160,7 +160,7 @@ PROPS = {
     },
     "C13": {
         "theorems": T("C13", ["classify_respects_identity", "respell_invariant", "typeInfo_norm", "varTypeInfo_norm", "typeName_norm", "paren_invariant"]),
-        "suites": [("layout", {"kind": "spelling"})],
+        "suites": [("layout", {"kind": "spelling"}), ("prog", {"impl": "1", "focus": "IMPL", "n": 60, "nocorpus": "1"})],
         "assumptions": ["type identity is modelled up to aliases (go/types' Alias / Pointer / Named structure is kept by the extractor); a renamed import changes nothing the model reads"],
         "trusted_base": ["hand-written whole-program model GGV.Model.Prog, tied by the prog correspondence (real analyzers in-process vs model)", "APF extractor (go/ast + go/types, independent of gogreement)"],
     },
@@ -177,5 +177,16 @@ PROPS = {
         "assumptions": ["'exactly one code': the bracketed token right after 'error: ' is in the table and no OTHER table code occurs bracketed in the header (CTOR/TONL messages repeat their own code)",
                         "exit status is x/tools multichecker's behaviour: observed (text mode: 3 when any diagnostic), not modelled"],
         "trusted_base": ["hand-written whole-program model GGV.Model.Prog, tied by the prog correspondence (real analyzers in-process vs model)", "APF extractor (go/ast + go/types, independent of gogreement)"] + ["tables T1, T2, T3, T8 regenerated from /repo and its book"],
+    },
+    "C05": {
+        "theorems": T("C05", ["importFind_none_iff", "importFind_alias_first", "cascade_exclusive", "missing_exact", "correct_is_silent", "match_iff_identical", "value_form_excludes_pointer_methods"]),
+        "suites": [("prog", {"impl": "1", "focus": "IMPL", "n": 100, "nocorpus": "1"}), ("prog", {"focus": "IMPL", "n": 40})],
+        "assumptions": [
+            "go/types is the oracle the property names: method sets, Func.Id, types.Identical (signatures numbered up to it), types.Implements are computed by the extractor and handed to the model; the real tool's IMPL diagnostics (code, interface, listed methods) are compared with that oracle on every scenario",
+            "a qualifier that resolves only through ImportMap.Find's exact-path / path-suffix fallbacks is Unspecified (the pinned suite demands the fallback): the specification follows the model there",
+            "non-generic interfaces and types (as the property says)",
+        ],
+        "trusted_base": ["hand-written model GGV.Model.Implements of annotations.parseImplementsAnnotation, util.ImportMap, implements/*, tied by the prog correspondence on generated @implements scenarios and the corpus",
+                         "APF extractor's IMPL section (go/types method sets and verdicts)"],
     },
 }
